@@ -118,8 +118,37 @@ def t_pairs(acc, n1, n2, k, depth, shard, nshard, stride=1, offset=0, sch2='r', 
         check_pair(acc, spaces.dfa_spec(n1, k, idx // size2), spaces.dfa_spec(n2, k, idx % size2), depth, 's', sch2, logging=logging)
 
 
+def t_deep(acc, n):
+    """Thin deep family: the counter modulo n over {a, b} (a: +1, b: stay) against a renamed copy of itself and
+    against siblings with another accepting state / another initial state - one simple path through all n states."""
+    from gambatools.dfa import DFA
+
+    def counter(prefix, q0, f):
+        Q = ['%s%d' % (prefix, i) for i in range(n)]
+        d = {}
+        for i in range(n):
+            d[Q[i], 'a'] = Q[(i + 1) % n]
+            d[Q[i], 'b'] = Q[i]
+        return DFA(set(Q), {'a', 'b'}, d, Q[q0], {Q[f]})
+
+    rp = {'fn': 'mc.props.c20:t_deep', 'mode': 'plain', 'params': {'n': n}}
+    cases = [((0, n - 1), (0, n - 1), True), ((0, n - 1), (0, n - 2), False), ((0, n - 1), (1, 0), True), ((0, 0), (0, 0), True), ((0, 1), (1, 0), False)]
+    for name in ROUTINES:
+        for (a, b, exp) in cases:
+            inst = {'D1': 'counter mod %d, q0=%d, F={%d}' % ((n,) + a), 'D2': 'renamed counter mod %d, q0=%d, F={%d}' % ((n,) + b), 'routine': name}
+            ok, got = core.lib_call(acc, name, inst, routine(name), counter('q', *a), counter('r', *b), repro=rp)
+            acc.states += 1
+            acc.transitions += 1
+            if ok:
+                acc.evals += 1
+                acc.validated += 1
+                acc.nontrivial += 1
+                if got is not exp:
+                    acc.viol(name, 'answer differs from existence of an isomorphism of the reachable parts', inst, repro=rp, observed=got, expected=exp)
+
+
 def plan(tier, seed):
-    tasks = []
+    tasks = [('plain', 'mc.props.c20:t_deep', {'n': 1500}), ('plain', 'mc.props.c20:t_deep', {'n': 17})]
 
     def pairs(n1, n2, k, depth, nshard, stride=1, sch2='r', logging=False):
         for s in range(nshard):
@@ -162,4 +191,4 @@ def plan(tier, seed):
         bounds = 'ordered pairs DFA(n<=2,k<=2)^2 all d<=2; DFA(n<=3,1)^2 all (465 124) d<=1 (d<=2 when one side has <= 2 states); DFA(3,2)xDFA(2,2) stride 1/8 d<=1; DFA(3,2)^2 stride 1/1024 d<=1'
     return {'tasks': tasks, 'bounds': {'spaces': bounds, 'step_budget': BUDGET}, 'exhaustive': True,
             'rule': 'ordered pairs of labelled DFAs over the same alphabet (second operand renamed r0.. or with identical names) x both routines x one execution under CPython order + every execution with <= d set-order deviations, loop-iteration budget as termination oracle; non-trivial = equivalent-but-not-isomorphic pairs and isomorphic pairs with unreachable states',
-            'assumptions': ['termination = result within {} loop iterations (largest count seen on a terminating run is in maxima)'.format(BUDGET), 'set order = global order per execution (DESIGN 3.4)', 'state names are distinct str objects with equal content (as parsers produce them)', 'small pair spaces also with GambaTools.enable_logging = True and through two live DFA objects rewritten in place']}
+            'assumptions': ['termination = result within {} loop iterations (largest count seen on a terminating run is in maxima)'.format(BUDGET), 'set order = global order per execution (DESIGN 3.4)', 'state names are distinct str objects with equal content (as parsers produce them)', 'small pair spaces also with GambaTools.enable_logging = True and through two live DFA objects rewritten in place', 'wave 5: the counter modulo 1500 (one simple path through all states, longer than the recursion limit) against renamed copies and non-isomorphic siblings; expected answers by construction']}
